@@ -20,7 +20,7 @@ import logging
 import asyncio as aio
 from typing import Any
 from collections.abc import Awaitable, Coroutine
-from .utils import gen_nonce
+from .utils import gen_nonce, timestamp
 from .encoding import BinaryStr, TypeNumber, LpTypeNumber, parse_interest, \
     parse_tl_num, parse_data, DecodeError, Name, NonStrictName, MetaInfo, \
     make_data, InterestParam, make_interest, FormalName, SignaturePtrs, parse_lp_packet, Component
@@ -247,12 +247,14 @@ class NDNApp:
             implicit_sha256 = b''
         node = self._int_tree.setdefault(node_name, InterestTreeNode())
         node.append_interest(future, interest_param, implicit_sha256)
+        # The lifetime starts now, not when the returned coroutine is first awaited
+        deadline = timestamp() + (100 if interest_param.lifetime is None else interest_param.lifetime)
         self.face.send(raw_interest)
-        return self._wait_for_data(future, interest_param.lifetime, node_name, node, validator, need_raw_packet)
+        return self._wait_for_data(future, deadline, node_name, node, validator, need_raw_packet)
 
-    async def _wait_for_data(self, future: aio.Future, lifetime: int, node_name: FormalName,
+    async def _wait_for_data(self, future: aio.Future, deadline: int, node_name: FormalName,
                              node: InterestTreeNode, validator: Validator, need_raw_packet: bool):
-        lifetime = 100 if lifetime is None else lifetime
+        lifetime = max(deadline - timestamp(), 0)
         try:
             data_name, meta_info, content, sig, raw_packet = await aio.wait_for(future, timeout=lifetime/1000.0)
         except TimeoutError:
